@@ -275,7 +275,13 @@ func (r *Report) Finish() string {
 			ev["assumptions"] = []string{}
 		}
 		b, _ := json.MarshalIndent(ev, "", " ")
-		ioutil.WriteFile(r.env.path("evidence", r.id+".json"), append(b, '\n'), 0o644)
+		evdir := r.env.path("evidence")
+		if alt := os.Getenv("VERIF_EVIDENCE_DIR"); alt != "" {
+			// self-test runs against a scratch copy of sso must not overwrite the evidence of /repo
+			evdir = alt
+			os.MkdirAll(evdir, 0o755)
+		}
+		ioutil.WriteFile(evdir+"/"+r.id+".json", append(b, '\n'), 0o644)
 	}
 
 	res := Result{Property: r.id, Status: status, Lines: lines}
